@@ -1,7 +1,107 @@
 import Mutagen.Driver.Util
+import Mutagen.Model.Forward
 namespace Mutagen.Driver.C33
+open Mutagen.Driver Mutagen.Model.Forward
 
-/-- Model-side handler for one line of the C33 correspondence stream. -/
-def handle (_line : String) : String := "unimplemented"
+/-!
+Lines:
+
+* `fac <auditors 0/1> <events>` — one `ForwardAndClose` call; events `-` or
+  comma separated: `r<d>:<hex>:<accept>:<werr 0/1>` (chunk in direction `d`),
+  `e<d>` (EOF), `x<d>` (read error), `c` (cancel).
+  Answer: `d0=<delivered>/<closeWrites> d1=… closed=<first>/<second> aud=<first>/<second>`
+  (`aud=-` when no auditors were passed).
+* `sock <unix|tcp> <ab|ba|cancel> <hex A> <hex B>` — `ForwardAndClose` between
+  real socket pairs; both peers send and half-close (A first / B first), or B
+  keeps its side open and the context is cancelled once everything arrived.
+  Answer: `ab=<B received>/<B saw EOF> ba=<A received>/<A saw EOF> closed=…/… aud=<first>/<second>`.
+* `fwd <events>` — the controller's forwarding loop; events `o` (open), `of`
+  (destination open fails), `s` (source open fails), `snap`, `<k>.<event>`.
+  Answer: `c<k>=<d0 delivered>/<cw>/<d1 delivered>/<cw>/<closed first>/<closed second>`
+  for every connection, `orphan=<n>`, `snaps=<open>/<total>/<in>/<out>;…` (or
+  `-`), `end=<open>/<total>/<in>/<out>`.
+-/
+
+def parseDir : Char → Option Bool
+  | '0' => some false | '1' => some true | _ => none
+
+def parseEvent (s : String) : Option Event :=
+  match s.splitOn ":" with
+  | [t] =>
+    match t.toList with
+    | ['e', d] => do pure (.eof (← parseDir d))
+    | ['x', d] => do pure (.err (← parseDir d))
+    | ['c'] => some .cancel
+    | _ => none
+  | [t, h, a, w] =>
+    match t.toList with
+    | ['r', d] => do pure (.chunk (← parseDir d) (← decHex h) (← a.toNat?) (w == "1"))
+    | _ => none
+  | _ => none
+
+def parseEvents (s : String) : Option (List Event) :=
+  if s == "-" then some [] else (s.splitOn ",").mapM parseEvent
+
+def parseLoopEvent (s : String) : Option LoopEvent :=
+  match s with
+  | "o" => some .open
+  | "of" => some .openFail
+  | "s" => some .stop
+  | "snap" => some .snap
+  | _ =>
+    match s.splitOn "." with
+    | [k, e] => do
+      match ← parseEvent e with
+      | .cancel => none   -- the loop has no per-connection cancellation
+      | ev => pure (.conn (← k.toNat?) ev)
+    | _ => none
+
+def parseLoopEvents (s : String) : Option (List LoopEvent) :=
+  if s == "-" then some [] else (s.splitOn ",").mapM parseLoopEvent
+
+def showDir (d : Dir) : String := s!"{encHex d.delivered}/{d.closeWrites}"
+
+def showCounters (c : Counters) : String :=
+  s!"{c.openConnections}/{c.totalConnections}/{c.inbound}/{c.outbound}"
+
+/-- Script of a real-socket scenario (`sock` lines): peer A's payload travels
+first → second (direction `true`), peer B's payload second → first. -/
+def sockScript (mode : String) (pa pb : List UInt8) : Option (List Event) :=
+  let ca : List Event := if pa.isEmpty then [] else [.chunk true pa pa.length false]
+  let cb : List Event := if pb.isEmpty then [] else [.chunk false pb pb.length false]
+  match mode with
+  | "ab" => some (ca ++ [.eof true] ++ cb ++ [.eof false])
+  | "ba" => some (cb ++ [.eof false] ++ ca ++ [.eof true])
+  | "cancel" => some (ca ++ [.eof true] ++ cb ++ [.cancel])
+  | _ => none
+
+def handle (line : String) : String :=
+  match fields line with
+  | ["sock", _kind, mode, a, b] =>
+    match decHex a, decHex b with
+    | some pa, some pb =>
+      match sockScript mode pa pb with
+      | some es =>
+        let c := Conn.run es
+        s!"ab={showDir c.d1} ba={showDir c.d0} closed={c.closedFirst}/{c.closedSecond} aud={c.d0.audited}/{c.d1.audited}"
+      | none => "bad-op"
+    | _, _ => "bad-op"
+  | ["fac", aud, es] =>
+    match parseEvents es with
+    | some es =>
+      let c := Conn.run es
+      let a := if aud == "1" then s!"{c.d0.audited}/{c.d1.audited}" else "-"
+      s!"d0={showDir c.d0} d1={showDir c.d1} closed={c.closedFirst}/{c.closedSecond} aud={a}"
+    | none => "bad-op"
+  | ["fwd", es] =>
+    match parseLoopEvents es with
+    | some es =>
+      let l := Loop.run es
+      let cs := (List.range l.conns.length).zip l.conns |>.map fun (k, c) =>
+        s!"c{k}={encHex c.d0.delivered}/{c.d0.closeWrites}/{encHex c.d1.delivered}/{c.d1.closeWrites}/{c.closedFirst}/{c.closedSecond}"
+      let snaps := if l.snaps.isEmpty then "-" else ";".intercalate (l.snaps.map showCounters)
+      " ".intercalate (cs ++ [s!"orphan={l.orphanClosed}", s!"snaps={snaps}", s!"end={showCounters l.counters}"])
+    | none => "bad-op"
+  | _ => "bad-op"
 
 end Mutagen.Driver.C33
